@@ -25,3 +25,13 @@ func (R *Repository) VerifSetLoaderFactory(f crlloader.CRLLoaderFactory) { R.crl
 
 func (E *Entry) VerifLock()   { E.entryLock.Lock() }
 func (E *Entry) VerifUnlock() { E.entryLock.Unlock() }
+
+// VerifLoadedNow reports, without waiting, whether the entry holds an accepted crl right now:
+// false if a load or update currently holds the entry lock.
+func (E *Entry) VerifLoadedNow() bool {
+	if !E.entryLock.TryRLock() {
+		return false
+	}
+	defer E.entryLock.RUnlock()
+	return E.Loaded && E.CRLStore != nil
+}
